@@ -879,7 +879,9 @@ theorem readBody_distHeader (order : List Bytes) (terms : List Term) (bs : Bytes
             have hbs : bs = 131 :: 68 :: UInt8.ofNat order.length :: flagBytes order.length long ++ refBytes long 0 order ++ b := by
               injection h with h; exact h.symm
             subst hbs
-            have hn255 : order.length ≤ 255 := by omega
+            have hn255 : order.length ≤ 255 := by
+              have : Gen.C07_HEADER_MAX_ATOMS = 255 := rfl
+              omega
             have hpos : 0 < order.length := by
               cases order with
               | nil => simp at hne
@@ -924,6 +926,16 @@ theorem encode_ok {t : Term} {b : Bytes} (h : encode t = .ok b) : ∃ tb, enc []
   | ok tb =>
     simp only [ht] at h
     exact ⟨tb, rfl, by injection h with h; exact h.symm⟩
+
+/-- the write sequences the translator read off the source are the ones the protocol's frame needs -/
+theorem ptWrites_payload (n : Nat) (ce me : Bytes) : ptWrites true n ce me = [be32 n, [112], ce, me] := by
+  simp [ptWrites, writesFromSteps, writeOfStep, Gen.C07_SEND_BRANCHES, Gen.C07_PASS_THROUGH]
+
+theorem ptWrites_control (n : Nat) (ce me : Bytes) : ptWrites false n ce me = [be32 n, [112], ce] := by
+  simp [ptWrites, writesFromSteps, writeOfStep, Gen.C07_SEND_BRANCHES, Gen.C07_PASS_THROUGH]
+
+theorem hdrWrites_eq (p : Bool) (enc : Bytes) : hdrWrites p enc = [be32 enc.length ++ enc] := by
+  cases p <;> simp [hdrWrites, bufOf, Gen.C07_SEND_BRANCHES, Gen.C07_HEADER_BUFFER]
 
 /-- shape of a successful operation in pass-through mode -/
 theorem sendOp_pt_shape (c : Conn) (order : List Bytes) (op : Op) (ws : List Bytes)
@@ -986,7 +998,7 @@ theorem sendOp_hdr_shape (c : Conn) (order : List Bytes) (op : Op) (ws : List By
     have hst' : c.state = .connected := by simpa using hst
     unfold sendControlMessage at h
     rw [toTerm_control] at h
-    simp only [hpt, Bool.false_eq_true, ↓reduceIte] at h
+    simp only [hpt, Bool.false_eq_true, ↓reduceIte, hdrWrites_eq] at h
     have key : ∀ terms, terms = controlTerm op :: op.payload.toList →
         (match distHeader order terms with
           | Except.error e => Except.error e
